@@ -80,6 +80,8 @@ for p in props:
     if not os.path.isdir(wt):
         subprocess.check_call(["git", "-C", "/repo", "worktree", "add", "--detach", "-q", wt])
     subprocess.check_call(["git", "-C", wt, "checkout", "-q", "--", "."])
+    head = subprocess.check_output(["git", "-C", "/repo", "rev-parse", "HEAD"]).decode().strip()
+    subprocess.check_call(["git", "-C", wt, "checkout", "-q", "--detach", head])
     subprocess.check_call(["git", "-C", wt, "clean", "-fdq"])
     q = p.get("quantifier", {}).get("text", "")
     open(os.path.join(d, "property.txt"), "w").write(json.dumps({k: p[k] for k in ("id", "title", "statement", "quantifier", "anchors")}, indent=1))
